@@ -1,6 +1,6 @@
 """C06 - canonical classes and the s-type invariant (formula / ordering / table clauses only)."""
 import e8_formulas, e12_pairing, e9_relations
-import e33_scans
+import e33_scans, e34_lcinsert
 
 LEVEL = 'other'
 EXPLANATION = ('(E8 F1) ss = 2d + w - r + 1 is the same affine form - over the same atoms writhe and #Seifert circles - at all five '
@@ -17,6 +17,8 @@ def run(ctx, rep):
     facts = ctx.facts()
     rep.rule('E33', e33_scans.__doc__.strip().split('\n')[0])
     e33_scans.run_for(facts, rep, 'yui_link', ['yui_link::'], 3)
+    rep.rule('E34', e34_lcinsert.__doc__.strip().split('\n')[0])
+    e34_lcinsert.run(facts, rep)
     rep.rule('E8', e8_formulas.__doc__.strip().split('\n')[0])
     rep.rule('E12', e12_pairing.__doc__.strip().split('\n')[0])
     n = e8_formulas.check_ss(facts, rep)
